@@ -7,7 +7,7 @@ package porcupine
 // the line format of zz_verif_wgl_test.go and then goes through the normal path of the check (python oracle, monitors,
 // the verified Gallina model).  Asserts nothing itself.
 //
-// env: VERIF_OUT, VERIF_STRESS_N (number of histories), VERIF_SEED.
+// env: VERIF_OUT, VERIF_STRESS_N (number of histories), VERIF_SEED, VERIF_STRESS_MINOPS/MAXOPS, VERIF_STRESS_PIN (tenths).
 
 import (
 	"bufio"
@@ -32,6 +32,9 @@ type vsOp struct {
 const vsNil = -1000000
 
 var vsMinOps, vsMaxOps = 4, 11
+
+// share (in tenths) of histories whose first operation stays open until almost everything else was invoked
+var vsPinShare = 3
 
 func vsStep(st int, in etcdInput, out etcdOutput) (bool, int) {
 	switch in.op {
@@ -133,7 +136,7 @@ func vsGen(r *rand.Rand) ([]vsOp, []int) {
 	lifo := r.Intn(2) == 0
 	// the operation invoked first often stays open until (almost) everything else was invoked: it can then be linearized at any
 	// depth of the search, last in particular (its id is the lowest bit of the checker's linearized set)
-	pin0 := r.Intn(10) < 1
+	pin0 := r.Intn(10) < vsPinShare
 	ops := make([]vsOp, 0, n)
 	var seq []int // event sequence of op indexes: first occurrence call, second return
 	open := []int{}
@@ -191,7 +194,69 @@ func vsGen(r *rand.Rand) ([]vsOp, []int) {
 		}
 		pos++
 	}
+	if r.Intn(4) == 0 {
+		vsSimulate(r, ops, pin0)
+	}
 	return ops, seq
+}
+
+// vsSimulate replaces the random outcomes by those of a hidden atomic register: every operation takes effect at a random point
+// between its call and its return (the pinned first operation: in the later half), a few outcomes are then blanked to "unknown".
+// The history is linearizable by construction and, the outcomes being definite, usually in few ways only - the shape on which a
+// wrongly pruned branch of the search turns into a wrong verdict.
+func vsSimulate(r *rand.Rand, ops []vsOp, pin0 bool) {
+	n := len(ops)
+	pt := make([]float64, n)
+	ord := make([]int, n)
+	for i := range ops {
+		f := r.Float64()
+		if i == 0 && pin0 {
+			f = 0.5 + f/2
+		}
+		pt[i] = float64(ops[i].call) + f*float64(ops[i].ret-ops[i].call)
+		ord[i] = i
+	}
+	for i := 1; i < n; i++ {
+		for j := i; j > 0 && pt[ord[j]] < pt[ord[j-1]]; j-- {
+			ord[j], ord[j-1] = ord[j-1], ord[j]
+		}
+	}
+	st := vsNil
+	for _, i := range ord {
+		o := &ops[i]
+		unk := r.Intn(10) == 0
+		switch o.in.op {
+		case 0:
+			switch {
+			case unk:
+				o.out, o.tok = etcdOutput{unknown: true}, "Ru"
+			case st == vsNil:
+				o.out, o.tok = etcdOutput{}, "Rn"
+			default:
+				o.out, o.tok = etcdOutput{exists: true, value: st}, "R"+strconv.Itoa(st)
+			}
+		case 1:
+			o.out, o.tok = etcdOutput{unknown: unk}, "W"+strconv.Itoa(o.in.arg1)
+			if unk {
+				o.tok += "u"
+			}
+			st = o.in.arg1
+		default:
+			hit := st == o.in.arg1
+			res := "f"
+			if hit {
+				res = "t"
+			}
+			if unk {
+				res = "u"
+			}
+			o.out = etcdOutput{ok: hit && !unk, unknown: unk}
+			o.tok = "K" + strconv.Itoa(o.in.arg1) + ":" + strconv.Itoa(o.in.arg2) + res
+			if hit {
+				st = o.in.arg2
+			}
+		}
+	}
 }
 
 func vsLine(ops []vsOp, seq []int, perm []int) string {
@@ -221,6 +286,9 @@ func TestVerifWGLStress(t *testing.T) {
 	}
 	if v, err := strconv.Atoi(os.Getenv("VERIF_STRESS_MAXOPS")); err == nil && v >= vsMinOps {
 		vsMaxOps = v
+	}
+	if v, err := strconv.Atoi(os.Getenv("VERIF_STRESS_PIN")); err == nil && v >= 0 {
+		vsPinShare = v
 	}
 	workers := runtime.NumCPU()
 	var mu sync.Mutex
